@@ -94,6 +94,12 @@ Proof.
 Qed.
 Print Assumptions C10_possible_types_and_implementations_do_not_depend_on_order.
 
+(* ... and the root operation types (schema.Query, .Mutation, .Subscription) are the same. *)
+Theorem C10_root_operation_types_do_not_depend_on_order : forall srcs srcs' m m',
+  Permutation srcs srcs' -> merge_schemas srcs = Ok m -> merge_schemas srcs' = Ok m' -> m_roots m = m_roots m'.
+Proof. exact merged_roots_order_independent. Qed.
+Print Assumptions C10_root_operation_types_do_not_depend_on_order.
+
 (* Directive definitions: whichever order the definitions of one directive are met in, the merged
    directive has the same repeatability, the same locations (as a set) and the same arguments:
    names and types, and default values unless the directive is built in (mergeDirectives does not
